@@ -1,5 +1,311 @@
-import Netpol.Model.Cache
+import Netpol.Proofs.CacheLayer
+/-! # C15 — the evaluation cache is transparent
+
+After any sequence of inserts / deletes / queries, `CheckIfAllowed` returns what the same engine
+would return without any cache (cached results never leak through an update); admin policies stay
+ordered by priority whatever the insertion order; deleting an absent object is a no-op.
+
+The model is `Netpol.Model.Cache` (`EState.insert`, `EState.delete`, `EState.checkIfAllowed`); the
+proofs are in `Netpol.Proofs.CacheLayer`.
+
+**The hypothesis.** The cache key of a query is the string
+`ns/owner/variant/ns/owner/variant/proto/port` (`EState.connKey`). The design presupposes that this
+string determines everything the evaluation reads. `OpsConsistent attrs nsOf ops` states it for a
+history `ops`: owned pods ever inserted are real pods whose labels, ports and namespace are
+functions (`attrs`, `nsOf`) of their owner key ("pods with one owner key are interchangeable"), and
+the concatenation can be split in one way only on the owner keys and the (protocol, port) strings
+of the history. The last clause cannot be dropped: with pods `n/a/v`, `n/b/v` the queries
+`(proto, port) = ("TCP/80", "80")` and `("TCP", "80/80")` have the same key, the first is answered
+`false` by a policy with ports (unknown protocol) and cached, the second is an error (`badPort`)
+without cache (remark, not a theorem here). Hence the queried strings of the final query belong to the hypothesis:
+`OpsConsistent attrs nsOf (ops ++ [.q src dst proto port])`. -/
 namespace Netpol.Properties.C15
-open Netpol
+open Netpol EState
+
+/-- **C15, cache transparency.** After any history `ops` (inserts, deletes, queries, clears) a
+query is answered as by the same engine state with an empty cache. -/
+theorem cache_transparent (attrs : String → Labels × List CPort) (nsOf : String → String)
+    (n : Nat) (ops : List HOp) (src dst proto port : String)
+    (h : OpsConsistent attrs nsOf (ops ++ [.q src dst proto port])) :
+    ((EState.run { cache := { cap := n } } ops).checkIfAllowed src dst proto port).1 =
+      (EState.run { cache := { cap := n } } ops).uncached src dst proto port :=
+  cache_transparent_faithful n ops src dst proto port h.faithful
+
+/-- the shape "consistent history, then any query with (protocol, port) strings seen before" -/
+theorem cache_transparent_requery (attrs : String → Labels × List CPort) (nsOf : String → String)
+    (n : Nat) (ops : List HOp) (h : OpsConsistent attrs nsOf ops) (src dst proto port : String)
+    (hq : (proto, port) ∈ opsQueries ops) :
+    ((EState.run { cache := { cap := n } } ops).checkIfAllowed src dst proto port).1 =
+      (EState.run { cache := { cap := n } } ops).uncached src dst proto port :=
+  cache_transparent attrs nsOf n ops src dst proto port (h.requery src dst hq)
+
+/-- the same for every query inside a consistent history -/
+theorem cache_transparent_everywhere (attrs : String → Labels × List CPort) (nsOf : String → String)
+    (n : Nat) (pre post : List HOp) (src dst proto port : String)
+    (h : OpsConsistent attrs nsOf (pre ++ .q src dst proto port :: post)) :
+    ((EState.run { cache := { cap := n } } pre).checkIfAllowed src dst proto port).1 =
+      (EState.run { cache := { cap := n } } pre).uncached src dst proto port :=
+  Netpol.cache_transparent_everywhere n pre post src dst proto port h.faithful
+
+/-- the uncached answer is the rule-walking verdict of the resolved peers: it reads the state
+only through the engine's objects -/
+theorem uncached_is_verdict (s : EState) (src dst proto port : String) :
+    s.uncached src dst proto port =
+      match getPeer s.eng src with
+      | .error e => .error e
+      | .ok sp =>
+        match getPeer s.eng dst with
+        | .error e => .error e
+        | .ok dp =>
+          if Engine.isPodToItself sp dp then .ok true else verdict s.eng sp dp proto port :=
+  uncached_eq s src dst proto port
+
+/-- **cached results never leak through an update**: inserting or deleting a NetworkPolicy, a
+Namespace, an AdminNetworkPolicy or the BaselineAdminNetworkPolicy either leaves the state as it
+is (rejected insertion, absent baseline policy) or leaves an empty cache -/
+theorem update_never_leaks (s : EState) (o : Obj) (ho : o.isPolicyOrNs = true) :
+    ((s.step (.ins o)).1 = s ∨ (s.step (.ins o)).1.cache.items = []) ∧
+    ((s.step (.del o)).1 = s ∨ (s.step (.del o)).1.cache.items = []) :=
+  ⟨insert_policy_cache s o ho, delete_policy_cache s o ho⟩
+
+/-- an accepted insertion of such an object empties the cache -/
+theorem accepted_update_clears (s : EState) (o : Obj) (ho : o.isPolicyOrNs = true)
+    (hok : (s.insert o).1 = .ok) : (s.step (.ins o)).1.cache.items = [] :=
+  insert_policy_ok_cache s o ho hok
+
+/-- **admin policies stay ordered by priority** whatever the history -/
+theorem anps_sorted_invariant (n : Nat) (ops : List HOp) :
+    ((EState.run { cache := { cap := n } } ops).eng.anps).Pairwise (fun a b => a.prio ≤ b.prio) :=
+  EState.run_byPrio (s := { cache := { cap := n } }) List.Pairwise.nil ops
+
+theorem anps_sorted_invariant' (ops : List HOp) :
+    ((EState.run {} ops).eng.anps).Pairwise (fun a b => a.prio ≤ b.prio) :=
+  EState.run_byPrio (s := {}) List.Pairwise.nil ops
+
+/-- **the insertion order is irrelevant**: two permutations of a list of admin policies with
+distinct (fresh) names and distinct priorities, inserted into the same engine (sorted, priorities
+distinct from the new ones), are both accepted and yield the same slice -/
+theorem anps_insertion_order_irrelevant (e : Engine) (l₁ l₂ : List ANP) (hp : l₁.Perm l₂)
+    (hexp : e.exposure = false) (hn : (e.anpNames ++ l₁.map (·.name)).Nodup)
+    (hs : e.anps.Pairwise (fun a b => a.prio ≤ b.prio))
+    (hprio : ((l₁ ++ e.anps).map (·.prio)).Nodup) :
+    ∃ e₁ e₂, l₁.foldlM Engine.insertANP e = .ok e₁ ∧ l₂.foldlM Engine.insertANP e = .ok e₂ ∧
+      e₁.anps = e₂.anps :=
+  CacheLayer.insertANPs_perm e l₁ l₂ hp hexp hn hs hprio
+
+/-- from the empty engine -/
+theorem anps_insertion_order_irrelevant_empty (l₁ l₂ : List ANP) (hp : l₁.Perm l₂)
+    (hn : (l₁.map (·.name)).Nodup) (hprio : (l₁.map (·.prio)).Nodup) :
+    ∃ e₁ e₂, l₁.foldlM Engine.insertANP {} = .ok e₁ ∧ l₂.foldlM Engine.insertANP {} = .ok e₂ ∧
+      e₁.anps = e₂.anps :=
+  CacheLayer.insertANPs_perm {} l₁ l₂ hp rfl (by simpa using hn) List.Pairwise.nil (by simpa using hprio)
+
+/-- in every reachable state the sorted slice and the name map agree -/
+theorem anps_names_invariant (n : Nat) (ops : List HOp) :
+    AdmInv (EState.run { cache := { cap := n } } ops).eng :=
+  EState.run_admInv (s := { cache := { cap := n } }) ⟨List.nodup_nil, fun _ h => by cases h⟩ ops
+
+/-- **deleting an absent object is a no-op**: the answer is `ok` and the engine is unchanged. For a
+pod and the baseline policy the whole state is unchanged; for a namespace, a NetworkPolicy and an
+admin policy the cache is cleared as by every such update (`cacheClear` keeps `eng`). -/
+theorem delete_absent_noop (s : EState) :
+    (∀ p : Pod, s.eng.findPod (Engine.podKey p) = none → s.delete (.pod p) = (.ok, s)) ∧
+    (∀ n : NsObj, (∀ x ∈ s.eng.namespaces, x.name ≠ n.name) →
+      s.delete (.ns n) = (.ok, s.cacheClear)) ∧
+    (∀ p : NetPol, (∀ x ∈ s.eng.netpols, ¬ (x.ns = p.ns ∧ x.name = p.name)) →
+      s.delete (.np p) = (.ok, s.cacheClear)) ∧
+    (∀ a : ANP, a.name ∉ s.eng.anpNames → (∀ x ∈ s.eng.anps, x.name ≠ a.name) →
+      s.delete (.anp a) = (.ok, s.cacheClear)) ∧
+    (∀ b : BANP, s.eng.banp = none → s.delete (.banp b) = (.ok, s)) ∧
+    (∀ b cur : BANP, s.eng.banp = some cur → cur.name ≠ b.name → s.delete (.banp b) = (.ok, s)) ∧
+    s.cacheClear.eng = s.eng :=
+  ⟨delete_absent_pod s, delete_absent_ns s, delete_absent_np s, delete_absent_anp s,
+   delete_absent_banp s, delete_other_banp s, rfl⟩
+
+/-- in a reachable state an admin policy is absent as soon as its name is not registered -/
+theorem delete_absent_anp_reachable (n : Nat) (ops : List HOp) (a : ANP)
+    (h : a.name ∉ (EState.run { cache := { cap := n } } ops).eng.anpNames) :
+    (EState.run { cache := { cap := n } } ops).delete (.anp a) =
+      (.ok, (EState.run { cache := { cap := n } } ops).cacheClear) :=
+  delete_absent_anp_of_admInv _ (anps_names_invariant n ops) a h
+
+/-! ## non-vacuity: a concrete history
+
+`ns n`, two owned pods `n/a`, `n/b`, a query (allowed, cached under the owner key), a NetworkPolicy
+denying it (cache cleared), the same query (denied = uncached). `String.splitOn` is defined by
+well-founded recursion and does not reduce in the kernel, hence the hand-unrolled `splitOn` facts. -/
+namespace Example
+open String in
+theorem aux_end {s sep : String} {b i j : Pos.Raw} {r : List String} (h : i.atEnd s = true) :
+    splitOnAux s sep b i j r = ((b.extract s i) :: r).reverse := by
+  rw [splitOnAux]; simp [h]
+
+open String in
+theorem aux_ne {s sep : String} {b i j : Pos.Raw} {r : List String} (h1 : i.atEnd s = false)
+    (h2 : (i.get s == j.get sep) = false) :
+    splitOnAux s sep b i j r = splitOnAux s sep b ((i.unoffsetBy j).next s) 0 r := by
+  rw [splitOnAux]; simp [h1, h2]
+
+open String in
+theorem aux_eq_end {s sep : String} {b i j : Pos.Raw} {r : List String} (h1 : i.atEnd s = false)
+    (h2 : (i.get s == j.get sep) = true) (h3 : (j.next sep).atEnd sep = true) :
+    splitOnAux s sep b i j r =
+      splitOnAux s sep (i.next s) (i.next s) 0 (b.extract s ((i.next s).unoffsetBy (j.next sep)) :: r) := by
+  rw [splitOnAux]; simp [h1, h2, h3]
+
+theorem split_na : "n/a".splitOn "/" = ["n", "a"] := by
+  unfold String.splitOn
+  rw [if_neg (by decide), aux_ne (by decide) (by decide),
+    aux_eq_end (by decide) (by decide) (by decide), aux_ne (by decide) (by decide),
+    aux_end (by decide)]
+  decide
+
+theorem split_nb : "n/b".splitOn "/" = ["n", "b"] := by
+  unfold String.splitOn
+  rw [if_neg (by decide), aux_ne (by decide) (by decide),
+    aux_eq_end (by decide) (by decide) (by decide), aux_ne (by decide) (by decide),
+    aux_end (by decide)]
+  decide
+
+theorem dot_na : "n/a".splitOn "." = ["n/a"] := by
+  unfold String.splitOn
+  rw [if_neg (by decide), aux_ne (by decide) (by decide), aux_ne (by decide) (by decide),
+    aux_ne (by decide) (by decide), aux_end (by decide)]
+  decide
+
+theorem dot_nb : "n/b".splitOn "." = ["n/b"] := by
+  unfold String.splitOn
+  rw [if_neg (by decide), aux_ne (by decide) (by decide), aux_ne (by decide) (by decide),
+    aux_ne (by decide) (by decide), aux_end (by decide)]
+  decide
+
+theorem dot_n : "n".splitOn "." = ["n"] := by
+  unfold String.splitOn
+  rw [if_neg (by decide), aux_ne (by decide) (by decide), aux_end (by decide)]
+  decide
+
+/-- the pod and namespace lookup of `getPeer` -/
+def lookup (e : Engine) (x : String) : Except Err KPeer :=
+  match e.findPod x with
+  | none => .error .notFoundPeer
+  | some pod =>
+    match e.findNs (if pod.ns == "" then "default" else pod.ns) with
+    | none => .error .notFoundNamespace
+    | some ns => .ok (.pod pod (some ns))
+
+/-- `getPeer` on a `namespace/name` string whose parts are no addresses -/
+theorem getPeer_name (e : Engine) (x a b : String) (h1 : x.splitOn "/" = [a, b])
+    (h2 : isIPv4 a = none) (h3 : isIPv4 x = none) : getPeer e x = lookup e x := by
+  simp only [getPeer, h1, h2, h3, strContains, lookup]
+  cases e.findPod x with
+  | none => simp
+  | some pod => simp only []; cases e.findNs (if pod.ns == "" then "default" else pod.ns) <;> simp
+
+theorem getPeer_na (e : Engine) : getPeer e "n/a" = lookup e "n/a" :=
+  getPeer_name e "n/a" "n" "a" split_na (by simp [isIPv4, dot_n]) (by simp [isIPv4, dot_na])
+theorem getPeer_nb (e : Engine) : getPeer e "n/b" = lookup e "n/b" :=
+  getPeer_name e "n/b" "n" "b" split_nb (by simp [isIPv4, dot_n]) (by simp [isIPv4, dot_nb])
+
+
+def nsN : NsObj := ⟨"n", []⟩
+def podA : Pod :=
+  { ns := "n", name := "a", labels := [("app", "a")], ports := [], ownerKind := "ReplicaSet",
+    ownerName := "ra", variant := "map[app:a]" }
+def podB : Pod :=
+  { ns := "n", name := "b", labels := [("app", "b")], ports := [], ownerKind := "ReplicaSet",
+    ownerName := "rb", variant := "map[app:b]" }
+/-- selects `b`, affects ingress, allows nothing -/
+def denyB : NetPol :=
+  { ns := "n", name := "deny-b", podSel := ⟨[("app", "b")], []⟩, types := [.ingress],
+    ingress := [], egress := [] }
+
+def init : EState := { cache := { cap := 10 } }
+def setup : List HOp := [.ins (.ns nsN), .ins (.pod podA), .ins (.pod podB)]
+def query : HOp := .q "n/a" "n/b" "TCP" "80"
+def hist : List HOp := setup ++ [query, .ins (.np denyB)]
+
+example : variantOf podA.labels = podA.variant := by decide +kernel
+
+/-- first query: allowed -/
+theorem first_answer : ((init.run setup).checkIfAllowed "n/a" "n/b" "TCP" "80").1 = .ok true := by
+  rw [checkIfAllowed_eq, getPeer_na, getPeer_nb]
+  rfl
+
+
+theorem run_append (s : EState) (a b : List HOp) : s.run (a ++ b) = (s.run a).run b := by
+  simp [EState.run, List.foldl_append]
+
+def key : String := "n/ra/map[app:a]/n/rb/map[app:b]/TCP/80"
+
+/-- the state after the first query: the verdict is cached under the owner key -/
+theorem after_first : init.run (setup ++ [query]) =
+    { eng := (init.run setup).eng, cache := { items := [(key, true)], cap := 10 },
+      owners := (init.run setup).owners } := by
+  rw [run_append]
+  show ((init.run setup).checkIfAllowed "n/a" "n/b" "TCP" "80").2 = _
+  rw [checkIfAllowed_eq, getPeer_na, getPeer_nb]
+  rfl
+
+theorem hist_eq : hist = (setup ++ [query]) ++ [.ins (.np denyB)] := rfl
+
+/-- the accepted NetworkPolicy clears the cache -/
+theorem after_update : (init.run hist).cache.items = [] ∧ (init.run hist).eng.netpols = [denyB] := by
+  rw [hist_eq, run_append, after_first]
+  exact ⟨rfl, rfl⟩
+
+/-- second, identical query: now denied -/
+theorem second_answer : ((init.run hist).checkIfAllowed "n/a" "n/b" "TCP" "80").1 = .ok false := by
+  rw [hist_eq, run_append, after_first, checkIfAllowed_eq, getPeer_na, getPeer_nb]
+  rfl
+
+theorem second_uncached : (init.run hist).uncached "n/a" "n/b" "TCP" "80" = .ok false := by
+  rw [hist_eq, run_append, after_first, uncached_eq, getPeer_na, getPeer_nb]
+  rfl
+
+/-- the clearing matters: with the cache of before the update the stale verdict would leak -/
+theorem stale_would_leak :
+    (({ init.run hist with cache := (init.run (setup ++ [query])).cache } : EState).checkIfAllowed
+      "n/a" "n/b" "TCP" "80").1 = .ok true := by
+  rw [hist_eq, run_append, after_first, checkIfAllowed_eq, getPeer_na, getPeer_nb]
+  rfl
+
+def exAttrs (k : String) : Labels × List CPort :=
+  if k = "n/ra/map[app:a]" then ([("app", "a")], []) else ([("app", "b")], [])
+def exNsOf (_ : String) : String := "n"
+
+/-- the hypothesis of `cache_transparent` is satisfiable -/
+theorem hist_consistent : OpsConsistent exAttrs exNsOf (hist ++ [query]) := by
+  constructor <;> decide
+
+
+/-- a second identical query without update is a cache hit and agrees with the uncached answer -/
+theorem hit_answer :
+    ((init.run (setup ++ [query])).checkIfAllowed "n/a" "n/b" "TCP" "80").1 = .ok true ∧
+    (init.run (setup ++ [query])).uncached "n/a" "n/b" "TCP" "80" = .ok true := by
+  rw [after_first, checkIfAllowed_eq, uncached_eq, getPeer_na, getPeer_nb]
+  exact ⟨rfl, rfl⟩
+
+/-- `cache_transparent` applied to the history: its hypothesis holds, its conclusion is the
+equation `false = false` computed above (and not the stale `true`) -/
+example : ((init.run hist).checkIfAllowed "n/a" "n/b" "TCP" "80").1 =
+    (init.run hist).uncached "n/a" "n/b" "TCP" "80" :=
+  cache_transparent exAttrs exNsOf 10 hist "n/a" "n/b" "TCP" "80" hist_consistent
+
+example : ((init.run hist).checkIfAllowed "n/a" "n/b" "TCP" "80").1 ≠
+    ((init.run setup).checkIfAllowed "n/a" "n/b" "TCP" "80").1 := by
+  rw [second_answer, first_answer]; intro h; cases h
+
+/-- admin policies inserted as priority 5, 3, 4 are held as 3, 4, 5; deleting an absent one
+changes nothing but the (empty) cache -/
+def anp (name : String) (prio : Int) : ANP :=
+  { name := name, prio := prio, subject := .nss ⟨[], []⟩, ingress := [], egress := [] }
+
+example : ((init.run [.ins (.anp (anp "x" 5)), .ins (.anp (anp "y" 3)), .ins (.anp (anp "z" 4))]).eng.anps.map
+    (·.name)) = ["y", "z", "x"] := by decide
+
+example : (init.run [.ins (.anp (anp "x" 5)), .del (.anp (anp "w" 1))]).eng.anps.map (·.name) = ["x"] := by
+  decide
+
+end Example
 
 end Netpol.Properties.C15
